@@ -7,6 +7,6 @@ CONSTANT FloorAhead = 3
 CONSTANT MaxPend = 1
 CONSTANT Fine = FALSE
 CONSTANT Acts = {"Next", "GTLast", "GTBatch", "GTBegin", "GiveBack", "Idle", "Stop"}
-SPECIFICATION Spec
+SPECIFICATION SimSpec
 INVARIANT BehaviourExport
 CHECK_DEADLOCK FALSE
